@@ -206,7 +206,7 @@ PROPS = {
         "shard": 40,
         "quick_scale": 1, "thorough_scale": 8, "search_factor": 4,
         "ties": ["cookie binary JS/JP: the real serde_json to_vec / from_slice on AuthCookie and SessionCookie vs the Gallina serde of Crypto/CookieJson.v (writer bytes equal; parser verdict and record equal whenever the model decides), and the serde tables recorded in every conn case vs the same model (Run/CaseConnJson.v)", "conn binary: real Connection::listen on a scripted transport/client/adapters in a paused runtime vs the byte-level model Conn.Sem2.run2 on the delivered timed segments (sends, calls, outcome, virtual ms), with no class exempted",
-                 "Conn.Sem2.run2 vs Conn.Sem1.run1 o Reader.frames_of on every case: the schedules on which they differ are the known classes K1 / K4",
+                 "Conn.Sem2.run2 vs Conn.Sem1.run1 o Reader.frames_of on every case (equal on every schedule: C08_refines), and the implementation's untimed observation vs M1 o reader on every case (the property itself)",
                  "Gen/PacketsGen.v descriptors decode the client's frames and encode the model's packets"],
         "family_types": {"C10P": {"case_type": "pair_case", "imports": ["Lib.Bytes", "Run.CaseConn"], "checkers": {"C10P": "check_c10_pair"}}},
         "allowed_axioms": [],
@@ -318,11 +318,11 @@ PROPS = {
         "shard": 40,
         "quick_scale": 1, "thorough_scale": 8, "search_factor": 4,
         "ties": ["conn binary: real Connection::listen on a scripted transport/client/adapters in a paused runtime vs the byte-level model Conn.Sem2.run2 on the delivered timed segments (sends, calls, outcome, virtual ms), with no class exempted",
-                 "Conn.Sem2.run2 vs Conn.Sem1.run1 o Reader.frames_of on every case: the schedules on which they differ are the known classes K1 / K4",
+                 "Conn.Sem2.run2 vs Conn.Sem1.run1 o Reader.frames_of on every case (equal on every schedule: C08_refines), and the implementation's untimed observation vs M1 o reader on every case (the property itself)",
                  "Gen/PacketsGen.v descriptors decode the client's frames and encode the model's packets"],
         "family_types": {"SEGP": {"case_type": "seg_pair", "imports": ["Lib.Bytes", "Conn.Types", "Run.CaseConn"], "checkers": {"SEGP": "check_seg_pair"}}},
         "allowed_axioms": [],
-        "rule": 'conn binary family SEG: each scenario run whole and again with every client frame cut (one byte at a time, after the length prefix, before the last byte, at seeded offsets, 3 cuts) with 3 ms gaps and, in a third of the cases, a transport that accepts 1 or 7 bytes per write; the pair is compared on packets sent, services consulted and outcome (SEGP); family CAN: logins in which a keep-alive tick or the completion of a raced adapter call is placed inside the length prefix / the body of a client frame, or the stream ends inside a frame (9 variants, seeded offsets); every run is compared with the byte-level model M2 exactly and M2 with M1 applied to the byte-level reader; non-trivial = distinct segmented case; family WCAN: the transport accepts 3 bytes of the Keep Alive written at the first tick and refuses the rest for 2 ms while the raced adapter call completes 1 ms after the tick (class K3, repaired in 8ccd88e), with controls; monitor: every frame the client received is a complete canonical packet of its phase',
+        "rule": 'conn binary family SEG: each scenario run whole and again with every client frame cut (one byte at a time, after the length prefix, before the last byte, at seeded offsets, 3 cuts) with 3 ms gaps and, in a third of the cases, a transport that accepts 1 or 7 bytes per write; the pair is compared on packets sent, services consulted and outcome (SEGP); family CAN: logins in which a keep-alive tick or the completion of a raced adapter call is placed inside the length prefix / the body of a client frame, or the stream ends inside a frame (9 variants, seeded offsets: the schedules of the repaired classes K1 / K4); every run is compared with the byte-level model M2 exactly, with M1 applied to the byte-level reader, and judged by the segmentation-independence monitor; non-trivial = distinct segmented case; family WCAN: the transport accepts 3 bytes of the Keep Alive written at the first tick and refuses the rest for 2 ms while the raced adapter call completes 1 ms after the tick (class K3, repaired in 8ccd88e), with controls; monitor: every frame the client received is a complete canonical packet of its phase',
         "trusted_base": COMMON_TB + ["Conn/Prog.v: hand transcription of Connection::listen into the program datatype (tied by the conn correspondence: every case compares the model's sends, adapter calls, outcome and virtual times with the real Connection::listen)",
                                      "Conn/Sem1.v: frame-level semantics incl. a hand model of tokio 1.49 Interval (MissedTickBehavior::Skip), validated by every timed conn case",
                                      "RSA PKCS#1 v1.5, serde_json, uuid generation, SystemTime: oracles recorded per case / universally quantified in the theorems",
